@@ -81,16 +81,17 @@ Definition end_check (s : st) : res unit :=
 Inductive lop :=
 | LCreate (k : kind)      (* a value is created or received: a new GuppyObject *)
 | LUse (id : nat)         (* the value is consumed: passed to a call, packed, returned *)
-| LReassign (id : nat).   (* the value was lent to a call and gets a fresh wire back *)
+| LReassign (id : nat) (k : kind).   (* the value was lent to a call and gets a fresh wire back, carried by a
+                                        new GuppyObject of kind k (the code asserts it has the value's type) *)
 
 Definition step (o : lop) (s : st) : res st :=
   match o with
   | LCreate k => Ok (snd (create k s))
   | LUse j => use_wire j s
-  | LReassign j =>
+  | LReassign j k =>
     match objs s j with
     | None => Err (ENoObj j)
-    | Some ob => let '(nid, s1) := create (okind ob) s in update_leaf j nid s1
+    | Some _ => let '(nid, s1) := create k s in update_leaf j nid s1
     end
   end.
 
